@@ -982,6 +982,24 @@ class SymBytesBase:
     def _items(self):
         return [self._at(i) for i in range(self.clen())]
 
+    def strip(self, chars=None):
+        """leading/trailing whitespace removed (forks on the symbolic characters at the ends)"""
+        if chars is not None:
+            raise Inconclusive("strip(chars) on symbolic text")
+        n = len(self)
+        items = self._all()
+
+        def ws(b):
+            if isinstance(b, int):
+                return b in (32, 9, 10, 11, 12, 13)
+            return bool(Or(b == 32, And(b >= 9, b <= 13)))
+        lo, hi = 0, n
+        while lo < hi and ws(items[lo]):
+            lo += 1
+        while hi > lo and ws(items[hi - 1]):
+            hi -= 1
+        return self._mk(Vec(items[lo:hi]).fold())
+
     def lower(self):
         return self._mk(Vec([_lower(b) for b in self._all()]))
 
@@ -1427,6 +1445,18 @@ def fstr(parts):
                 res.append(_fmt1(v, conv, spec))
             return SymFmt(res).norm()
         return "".join(p if isinstance(p, str) else _fmt1(*p) for p in parts)
+    if all(isinstance(p, str) or (isinstance(p[0], (str, SymBytesBase)) and p[1] in (None, "s") and p[2] == "")
+           for p in parts) and all(not isinstance(p, tuple) or not isinstance(p[0], SymBytesBase) or p[0].is_text for p in parts):
+        # plain interpolation of symbolic text: the result is symbolic text
+        pieces = []
+        for p in parts:
+            v = p if isinstance(p, str) else p[0]
+            pieces.append(Conc(v.encode("latin1"), True) if isinstance(v, str) else v)
+        r = Cat(pieces).fold()
+        if r.is_text is not True:
+            r = View(r, 0, r.length) if not isinstance(r, (Vec, Conc)) else Vec(r._items())
+            r.is_text = True
+        return r
     out = []
     for p in parts:
         if isinstance(p, str):
